@@ -119,7 +119,10 @@ type connKit struct {
 //
 // NOTE: This is part of the net.Conn interface.
 func (k *connKit) Read(b []byte) (int, error) {
-	if k.recvBuffer.Len() == 0 {
+	// Messages with an empty payload are skipped: reading from the empty
+	// buffer would return io.EOF, which tells the caller that the
+	// connection was closed.
+	for k.recvBuffer.Len() == 0 {
 		data := NewMsgData(ProtocolVersion, nil)
 		if err := k.impl.ReceiveControlMsg(data); err != nil {
 			return 0, err
